@@ -86,15 +86,15 @@ theorem inv_job_mkJournal {cfg : Cfg} {s : St} {d : Disk} (h : Inv cfg s d) {j :
         · rename_i o ho
           rw [ho] at r7
           simp only at r7
-          refine ⟨fun p hp hpo => ?_, r7.2.1, fun _ => ?_⟩
+          refine ⟨fun p hp hpo => ?_, r7.2.1, fun _ => ⟨?_, (r7.2.2 hnc).2⟩⟩
           · rcases (hmem p).1 hp with rfl | ⟨hp0, _⟩
-            · rcases r7.2.2 hnc with ⟨q, hq, hqo⟩ | hemp
+            · rcases (r7.2.2 hnc).1 with ⟨q, hq, hqo⟩ | hemp
               · have := hall q hq
                 simp only at hpo
                 omega
-              · rw [hemp]; rfl
+              · rw [hemp]; exact ⟨fun g hg => (by cases hg), fun g hg => (by cases hg)⟩
             · exact r7.1 p hp0 hpo
-          · rcases r7.2.2 hnc with ⟨q, hq, hqo⟩ | hemp
+          · rcases (r7.2.2 hnc).1 with ⟨q, hq, hqo⟩ | hemp
             · exact Or.inl ⟨q, (hmem q).2 (Or.inr ⟨hq, by have := hall q hq; omega⟩), hqo⟩
             · exact Or.inr hemp
         · rename_i ho; rw [ho] at r7; exact r7
